@@ -58,6 +58,7 @@ impl<'a> GeneratorState<'a> {
             deferred_plusplus: Vec::new(),
             y_saved_before_condition: false,
             deferred_before_condition: 0,
+            low_byte_folded: None,
             current_bank: 0,
             functions_code: HashMap::new(),
             functions_call_tree: HashMap::new(),
